@@ -268,6 +268,26 @@ fn sibling(c: &Case) -> Case {
 
 pub fn check(c: &Case, st: &mut Stats) -> Result<(), Violation> {
     st.evaluations += 1;
+    if c.w * c.h <= 1 << 20 && c.w != c.h && c.pad == (0, 0) {
+        // the same config on the transposed shape (equal area, other dimensions) first: the resolution is a
+        // function of width and height, not of the pixel count
+        let mut t = c.clone();
+        t.w = c.h;
+        t.h = c.w;
+        let _ = catch(|| {
+            let mut scratch = Stats::new();
+            match t.op {
+                Op::RgbNew | Op::LinToRgb | Op::XybToRgb => run_rgb_ops(&t, &mut scratch),
+                _ => {
+                    if t.u8_storage {
+                        run_yuv_ops::<u8>(&t, &mut scratch)
+                    } else {
+                        run_yuv_ops::<u16>(&t, &mut scratch)
+                    }
+                }
+            }
+        });
+    }
     if c.w * c.h <= 1 << 16 {
         let sib = sibling(c);
         let _ = catch(|| {
@@ -427,4 +447,4 @@ pub fn replay(v: &Value) -> Result<(), String> {
     check(&c, &mut Stats::new()).map_err(|v| v.message)
 }
 
-pub const RULE: &str = "enumeration: widths {1,2,16,1279,1280,1281} x heights {1,2,479..=489,575..=577,1279..=1281} x matrices x the 8 subsets of {matrix, primaries, transfer} set to Unspecified x {Yuv::new, Rgb::new, (LinearRgb|Xyb,t,p)->Rgb, (&Rgb|Rgb|LinearRgb|Xyb,cfg)->Yuv} (thorough: depths 8/10/16, random colour content, conversions of large frames). Oracle: (i) no accessor returns Unspecified; (ii) the resolved values equal the heuristic re-implemented from the statement, are the same on a second call and for other sample data; (iii) label = content: converting the same input with the stored (resolved) config given explicitly yields the same samples within max(1, 1.5% of the code range), and decoding the output with its own config and re-encoding reproduces them within the same budget. Frames handed to Yuv::new are also built with Plane::new paddings (storage geometry must not matter); every case is preceded by a sibling call with the same size and given metadata but another range/depth (no state may leak between calls). Conversions that fail are counted, not judged. A case = one (operation, size, config) triple; non-trivial = at least one field Unspecified; distinct by construction (hash of the case)";
+pub const RULE: &str = "enumeration: widths {1,2,16,1279,1280,1281} x heights {1,2,479..=489,575..=577,1279..=1281} x matrices x the 8 subsets of {matrix, primaries, transfer} set to Unspecified x {Yuv::new, Rgb::new, (LinearRgb|Xyb,t,p)->Rgb, (&Rgb|Rgb|LinearRgb|Xyb,cfg)->Yuv} (thorough: depths 8/10/16, random colour content, conversions of large frames). Oracle: (i) no accessor returns Unspecified; (ii) the resolved values equal the heuristic re-implemented from the statement, are the same on a second call and for other sample data; (iii) label = content: converting the same input with the stored (resolved) config given explicitly yields the same samples within max(1, 1.5% of the code range), and decoding the output with its own config and re-encoding reproduces them within the same budget. Frames handed to Yuv::new are also built with Plane::new paddings (storage geometry must not matter); every case is preceded by a call on the transposed shape (equal area) and by a sibling call with the same size and given metadata but another range/depth (no state may leak between calls). Conversions that fail are counted, not judged. A case = one (operation, size, config) triple; non-trivial = at least one field Unspecified; distinct by construction (hash of the case)";
